@@ -30,7 +30,7 @@ asan)
     tail -n 15 "$logs/asan-build.log"; echo "INCONCLUSIVE: sanitizer leg asan: build failed ($logs/asan-build.log)"; exit 2
   fi
   bin="$T/x86_64-unknown-linux-gnu/debug/s3s-verif"
-  div="${VERIF_ASAN_DIV:-2}"
+  div="${VERIF_ASAN_DIV:-8}"
   for id in "${ids[@]}"; do
     log="$logs/asan-$id.log"
     # leak detection is off: the monitors keep caught panics' payloads and tokio runtimes alive on purpose
